@@ -86,10 +86,11 @@ func compileOnce() {
 }
 
 type result struct {
-	obs      string
-	rep      vsched.Report
-	invalid  bool // an action was not applicable / the tape was not consumed
-	consumed int
+	invariant []string // violated end-state invariants
+	obs       string
+	rep       vsched.Report
+	invalid   bool // an action was not applicable / the tape was not consumed
+	consumed  int
 }
 
 const allFlags = rt.ComplyCpuSafe | rt.ComplyMemSafe | rt.ComplyIoSafe | rt.ComplyTimeSafe
@@ -102,6 +103,7 @@ func runHistory(h []action, tape vsched.Tape) (res result) {
 	pos := 0
 	invalid := false
 	var outcome string
+	var invariant []string
 	var expectParked int64 = -1
 	// A coroutine that yields out of a callcontext leaves that context pushed
 	// (the known finding recorded for C05/C06): the context-depth invariant is
@@ -189,13 +191,17 @@ func runHistory(h []action, tape vsched.Tape) (res result) {
 		// End-state invariants of the main thread and the runtime: nothing
 		// may leak from one call into the next.
 		if d := r.MainThread().VerifGoFunctionCallDepth(); d != 0 {
-			outcome += fmt.Sprintf(" INVARIANT(go-call-depth=%d after the call returned)", d)
+			invariant = append(invariant, fmt.Sprintf("go-call-depth (=%d after the call returned)", d))
 		}
 		if d := r.MainThread().VerifCloseStackSize(); d != 0 {
-			outcome += fmt.Sprintf(" INVARIANT(close-stack=%d after the call returned)", d)
+			invariant = append(invariant, fmt.Sprintf("close-stack (=%d after the call returned)", d))
 		}
-		if d := r.VerifContextDepth(); d != 0 && !ctxLeakExpected {
-			outcome += fmt.Sprintf(" INVARIANT(context-depth=%d after the call returned)", d)
+		// A coroutine that is suspended inside a protected call or a
+		// callcontext leaves that context pushed (the context stack belongs to
+		// the runtime, not to the coroutine: the finding recorded for C05/C06):
+		// the context stack must be balanced once no coroutine is suspended.
+		if d := r.VerifContextDepth(); d != 0 && !ctxLeakExpected && expectParked == 0 {
+			invariant = append(invariant, fmt.Sprintf("context-depth (=%d after the call returned, no coroutine suspended)", d))
 		}
 		r.Close(nil)
 		if cleanup != nil {
@@ -209,6 +215,7 @@ func runHistory(h []action, tape vsched.Tape) (res result) {
 	}
 	res.invalid = invalid || pos < len(h)
 	res.consumed = pos
+	res.invariant = invariant
 	res.obs = fmt.Sprintf("%s | %s | live=%d", strings.Join(trace, " ; "), outcome, expectParked)
 	if res.rep.Deadlock == "" && len(res.rep.Panics) == 0 && !res.rep.Horizon && expectParked >= 0 && int64(res.rep.ParkedEnd) != expectParked {
 		res.obs += fmt.Sprintf(" LEAK(parked goroutines=%d, live coroutines=%d: %s)", res.rep.ParkedEnd, expectParked, strings.Join(res.rep.ParkedWhat, ","))
@@ -277,8 +284,8 @@ func exploreHistory(h []action, c cfg, o *core.Outcome) {
 			addV("race "+rc, fmt.Sprintf("schedule %s: unordered conflicting accesses (no happens-before): %s", sched, rc))
 		}
 		if len(r.rep.Panics) == 0 && r.rep.Deadlock == "" && !r.rep.Horizon {
-			if k := strings.Index(r.obs, " INVARIANT("); k >= 0 {
-				addV("end-state-invariant", fmt.Sprintf("schedule %s: %s", sched, r.obs))
+			for _, iv := range r.invariant {
+				addV("end-state-invariant:"+strings.Fields(iv)[0], fmt.Sprintf("schedule %s: %s\nobs: %s", sched, iv, r.obs))
 			}
 			if strings.Contains(r.obs, " LEAK(") {
 				addV("goroutine-leak", fmt.Sprintf("schedule %s: %s", sched, r.obs))
@@ -498,6 +505,12 @@ func refFamily(names []string, depth, prefix, budget int) *core.Family {
 					got = fmt.Sprintf("%s deadlock=%q panics=%v", got, r.rep.Deadlock, r.rep.Panics)
 				}
 				o.Sig ^= core.Hash64(want)
+				for _, iv := range r.invariant {
+					o.Viols = append(o.Viols, &core.Violation{
+						Key:    fmt.Sprintf("hist=[%s] clause=end-state-invariant:%s", histString(h), strings.Fields(iv)[0]),
+						Detail: iv + "\nobs: " + r.obs,
+					})
+				}
 				if bad || got != normObs(want) || r.invalid {
 					o.Viols = append(o.Viols, &core.Violation{
 						Key:    fmt.Sprintf("hist=[%s] clause=differs-from-reference", histString(h)),
